@@ -37,6 +37,8 @@ def written_keys(E, before, outs):
     """heap key -> list of object refs written by the body (None: written at unknown objects)"""
     keys: dict = {}
     for o in outs:
+        if o.kind not in ("ok", "cont"):
+            continue   # only paths that come back to the loop head matter for the head abstraction
         for key, arr in o.st.heap.items():
             b = E.h(before, key)
             if arr is not b and not arr.eq(b):
